@@ -5,7 +5,8 @@ RULE = ("generated programs with with-blocks (AsyncContext, NonAsyncContext, sco
         "yields, in several concurrently pending tasks, synchronous re-entry, exceptions thrown into / out of the block, "
         "early result(); distinct = different AST+params; non-trivial = a with-block and >= 2 tasks and >= 1 batch item")
 TRUSTED = ["Python/Gallina emitters of harness/lib/machprog.py"]
-ASSUMPTIONS = ["contexts whose own pause()/resume() raise are outside this property's quantifier (they belong to C08)",
+ASSUMPTIONS = ["contexts whose SCHEDULER-DRIVEN pause()/resume() raise are outside this property's quantifier (they belong to C08); "
+               "a pause() that raises when __exit__ makes it is inside: it is the context's last call however the block was left",
                "interpretation of the flush clause under synchronous re-entry: DESIGN.md 5.21"]
 EXPLANATION = "projection: the global Resume/Pause sequence interleaved with Step and Before markers"
 
@@ -58,8 +59,53 @@ _CALLEE_RESUME_FAILS = {
         [{"op": "probe"}, {"op": "return", "e": 2}]],
     "params": {"kinds": {}},
 }
+# a context whose pause() raises when __exit__ makes it (a teardown step that fails); the block spanned a suspension; a handler
+# around the block lets the task carry on; it is then suspended for two more flushes while another task with a context of
+# its own runs: the pause on exit is the context's last call
+_EXIT_PAUSE_FAILS = {
+    "roots": [[{"op": "yield", "x": "x0", "s": {"tuple": [
+        {"new": {"task": [
+            {"op": "try", "body": [
+                {"op": "with", "c": {"async": [1, {"exit": 7}]}, "body": [
+                    {"op": "yield", "x": "a1", "s": {"new": {"item": [0, 1, {"set": 1}]}}}]}],
+             "x": "e1", "handler": [{"op": "probe"}]},
+            {"op": "yield", "x": "a2", "s": {"new": {"item": [0, 2, {"set": 2}]}}},
+            {"op": "yield", "x": "a3", "s": {"new": {"item": [1, 3, {"set": 3}]}}},
+            {"op": "return", "e": {"tuple": [{"var": "a2"}, {"var": "a3"}]}}]}},
+        {"new": {"task": [
+            {"op": "with", "c": {"async": [2, None]}, "body": [
+                {"op": "yield", "x": "b1", "s": {"new": {"item": [1, 4, {"set": 4}]}}},
+                {"op": "yield", "x": "b2", "s": {"new": {"item": [0, 5, {"set": 5}]}}}]},
+            {"op": "return", "e": {"var": "b2"}}]}}]}},
+        {"op": "return", "e": {"var": "x0"}}]],
+    "params": {"kinds": {}},
+}
+# the same fault with nothing around the block (the error kills the task, its awaiter handles it and is suspended again), and
+# with an enclosing block of the same task that stays open across the failing exit and the later suspension
+_EXIT_PAUSE_FAILS_NESTED = {
+    "roots": [[
+        {"op": "with", "c": {"async": [1, None]}, "body": [
+            {"op": "try", "body": [
+                {"op": "with", "c": {"async": [2, {"exit": 8}]}, "body": [{"op": "probe"}]}],
+             "x": "e1", "handler": []},
+            {"op": "yield", "x": "x1", "s": {"tuple": [
+                {"new": {"item": [0, 1, {"set": 1}]}},
+                {"new": {"task": [
+                    {"op": "with", "c": {"async": [3, {"exit": 9}]}, "body": [
+                        {"op": "yield", "x": "b1", "s": {"new": {"item": [1, 2, {"set": 2}]}}}]},
+                    {"op": "return", "e": {"var": "b1"}}]}}]}},
+            {"op": "probe"}]},
+        {"op": "return", "e": 1}]],
+    "params": {"kinds": {}},
+}
 _EXTRA = [(1, dict(name="overlap", p_ctx_fault=0, p_nonasync=0.0, p_manual_ctx=0.35, p_with=0.15, p_item=0.6, budget=18, max_depth=4))]
+# contexts whose pause() raises when __exit__ makes it, mostly with a handler around the block, in programs that go on
+# yielding batch items afterwards (drawn after the "overlap" cases: no earlier case shifts)
+_EXIT_FAULT = [(2, dict(_base, name="exit-fault", p_exit_fault=0.5, p_with=0.35, p_override=0.1, p_nonasync=0.0, p_raise=0.04,
+                        p_item=0.6, budget=16, max_depth=4)),
+               (1, dict(_base, name="exit-fault-yieldonly", p_exit_fault=0.5, p_with=0.35, p_override=0.1, p_nonasync=0.0,
+                        p_raise=0.04, p_item=0.6, p_sync=0, budget=16, max_depth=4))]
 
 mach.install(globals(), "C06", ("EvResume", "EvPause", "EvStep", "EvBefore"), ("C06:",), PROFILES, n_quick=300,
-             n_thorough=25000, nontrivial=_nontrivial, level="proof", corpus=[_OVERLAP, _CALLEE_RESUME_FAILS],
-             extra_gen=mach.extra_profiles(_EXTRA, 45, 3000))
+             n_thorough=25000, nontrivial=_nontrivial, level="proof", corpus=[_OVERLAP, _CALLEE_RESUME_FAILS, _EXIT_PAUSE_FAILS, _EXIT_PAUSE_FAILS_NESTED],
+             extra_gen=mach.extra_all(mach.extra_profiles(_EXTRA, 45, 3000), mach.extra_profiles(_EXIT_FAULT, 40, 2500)))
